@@ -64,13 +64,14 @@ def showRhb (ih : Nat) (a : ANode) : String :=
 /-- the unmodified submission loop of one kind, ticking until nothing of that kind is pending: each tick is one
 `headersIter` / `dataIter` on what is left of the scripted answers (one answer per `Submit` call; after the script the DA
 double accepts) -/
-def realLoop (isData : Bool) : Nat → ANode → List DAAns → List SW → List SubmitCall → ANode × List SW × List SubmitCall
-  | 0, a, _, ws, calls => (a, ws, calls)
-  | f+1, a, script, ws, calls =>
+def realLoop (isData : Bool) : Nat → Nat → ANode → List DAAns → List SW → List SubmitCall → ANode × List SW × List SubmitCall
+  | 0, _, a, _, ws, calls => (a, ws, calls)
+  | f+1, nf, a, script, ws, calls =>
     let wm := if isData then a.n.dataWm else a.n.hdrWm
     if a.n.store.height - wm = 0 then (a, ws, calls) else
-    let r := if isData then dataIter a script else headersIter a script
-    realLoop isData f r.1 (script.drop r.2.2.1.length) (ws ++ r.2.1) (calls ++ r.2.2.1)
+    -- `nf`: the next `nf` watermark writes fail (`fail=` of the op), whichever tick issues them
+    let (r, nf') := if isData then dataIterF nf a script else headersIterF nf a script
+    realLoop isData f nf' r.1 (script.drop r.2.2.1.length) (ws ++ r.2.1) (calls ++ r.2.2.1)
 
 def doStart (s : St) (disk : Store) (clean : Bool) (first : Bool) : St × String :=
   let a0 : ANode := if first then {} else s.a
@@ -104,7 +105,9 @@ def step (s : St) (line : String) : St × String :=
     | some script =>
       let before := s.a.n.store
       let isD := o.verb = "subd"
-      let (a2, ws2, calls, out) := if isD then dataIter s.a script else headersIter s.a script
+      -- `fail=n`: the next n writes of the watermark fail (not combined with `during=`)
+      let nf := if o.str "during" = "" then o.nat "fail" else 0
+      let ((a2, ws2, calls, out), _) := if isD then dataIterF nf s.a script else headersIterF nf s.a script
       let canceled : Bool := match calls.getLast? with | some c => decide (c.ans = .canceled) | none => false
       let outS := match out with
         | .skipped => "skipped" | .fetchErr => "fetchErr" | .done => "done"
@@ -145,7 +148,7 @@ def step (s : St) (line : String) : St × String :=
     | none => (s, "bad-op")
     | some script =>
       let before := s.a.n.store
-      let (a', ws, calls) := realLoop (o.verb = "subdreal") (script.length + 4) s.a script [] []
+      let (a', ws, calls) := realLoop (o.verb = "subdreal") (script.length + 4) (o.nat "fail") s.a script [] []
       let wm := if o.verb = "subdreal" then a'.n.dataWm else a'.n.hdrWm
       let outS := if a'.n.store.height - wm = 0 then "quiescent" else "busy"
       let cs := if calls.isEmpty then "-" else String.intercalate ";" (calls.map showCall)
